@@ -1,0 +1,36 @@
+package vm_test
+
+import (
+	"testing"
+
+	"github.com/elk-language/elk/value"
+	"github.com/elk-language/elk/vm"
+)
+
+func TestHashMapGetDeletedKey(t *testing.T) {
+	hmap := vm.NewHashMapOfValue(0)
+	one := value.SmallInt(1).ToValue()
+	two := value.SmallInt(2).ToValue()
+
+	if err := vm.HashMapOfValueSet(nil, hmap, one, one); !err.IsUndefined() {
+		t.Fatalf("unexpected error: %s", err.Inspect())
+	}
+	if err := vm.HashMapOfValueSet(nil, hmap, two, two); !err.IsUndefined() {
+		t.Fatalf("unexpected error: %s", err.Inspect())
+	}
+	deleted, err := vm.HashMapOfValueDelete(nil, hmap, one)
+	if !err.IsUndefined() {
+		t.Fatalf("unexpected error: %s", err.Inspect())
+	}
+	if !deleted {
+		t.Fatalf("expected key 1 to be deleted")
+	}
+
+	got, err := vm.HashMapOfValueGet(nil, hmap, one)
+	if !err.IsUndefined() {
+		t.Fatalf("unexpected error: %s", err.Inspect())
+	}
+	if !got.IsUndefined() {
+		t.Fatalf("expected undefined for a deleted key, got %s", got.Inspect())
+	}
+}
